@@ -25,18 +25,28 @@ pub fn check(deep: bool, pairs: &mut usize, skipped: &mut usize, fails: &mut Vec
         (fol::Variable { name: "Y".into(), sort: fol::Sort::General }, &gen_terms),
         (fol::Variable { name: "N".into(), sort: fol::Sort::Integer }, &int_terms),
         (fol::Variable { name: "Z".into(), sort: fol::Sort::General }, &gen_terms),
+        // substituted variables named like the first fresh-name candidates
+        (fol::Variable { name: "Y1".into(), sort: fol::Sort::General }, &gen_terms),
+        (fol::Variable { name: "Z1".into(), sort: fol::Sort::General }, &gen_terms),
+        (fol::Variable { name: "M1".into(), sort: fol::Sort::Integer }, &int_terms),
     ];
     let mut formulas: Vec<(String, fol::Formula)> = Vec::new();
     for t in corpus(deep) { if let Ok(f) = fol::Formula::from_str(&t) { if crate::simp::quantified_variables(&f) <= 12 && exactly_evaluable(&f) { formulas.push((t, f)); } } }
     // formulas in which a quantifier binds a name that also occurs in some substituted term
+    let hand_written_from = formulas.len();
     for t in ["exists Z (Z = X and p(Z))", "forall Y (q(Y) -> q(X, Y))", "exists N$i (N$i = X and p(N$i))", "exists X (p(X) and q(X, Y))", "exists Z (p(Z) and exists Z1 (Z1 = X and q(Z, Z1)))", "forall M$i (p(M$i) -> q(N$i, M$i))",
-              "exists I$i (I$i = N$i + 1 and p(I$i))", "exists Y (p(Y) and Y = X) and q(Y)", "p(X) and exists X (q(X) and q(X, Y))", "exists X$i (p(X$i) and q(X, X$i))", "exists N (p(N) and q(N, N$i))", "forall W (q(W, X) -> exists X (p(X) and q(X, W)))"] {
+              "exists I$i (I$i = N$i + 1 and p(I$i))", "exists Y (p(Y) and Y = X) and q(Y)", "p(X) and exists X (q(X) and q(X, Y))", "exists X$i (p(X$i) and q(X, X$i))", "exists N (p(N) and q(N, N$i))", "forall W (q(W, X) -> exists X (p(X) and q(X, W)))",
+              // the substituted variable occurs free below a block of several binders, one of which is named in the term
+              "exists Z Z1 (q(Z, Z1) and p(X))", "exists Z1 Z (q(Z, Z1) and p(X))", "forall Y Y1 (q(Y, Y1) -> p(X))", "exists Z Z1 Z2 (q(Z, Z1) and q(Z2, X))", "exists W W1 (q(W, W1) and q(X, Y))", "exists Y Y1 (q(Y, Y1) and q(X, Z))",
+              "exists M$i M1$i (q(M$i, M1$i) and p(N$i))", "forall I$i I1$i (q(I$i, I1$i) -> q(N$i, I$i))", "exists Y Y2 Y1 (q(Y, Y1) and q(Y2, X))", "forall X X1 (q(X, X1) -> q(Y, Z))", "exists Z (p(Z) and exists Z1 Z2 (q(Z1, Z2) and q(Z, Y)))",
+              // the substituted variable is the first fresh-name candidate of a binder that has to be renamed, and does not occur below it
+              "exists Y (p(Y))", "forall Z (q(Z) -> p(Z))", "exists Y (p(Y)) and p(Y1)", "exists Z (q(Z, X)) or p(Z1)", "forall M$i (p(M$i) -> q(M$i, N$i))", "exists Y (p(Y) and exists Y2 (q(Y, Y2)))", "exists Z Y (q(Z, Y))", "forall Y (p(Y) -> exists Z (q(Y, Z) and p(X)))"] {
         if let Ok(f) = fol::Formula::from_str(t) { formulas.push((t.to_string(), f)); }
     }
     let dom = Domain::new(-3, 4, &["a", "b"]);
     let uni = universe();
     let n_interp = if deep { 24 } else { 8 };
-    let work: Vec<(usize, usize, usize)> = { let mut w = Vec::new(); for fi in 0..formulas.len() { for vi in 0..vars.len() { for ti in 0..vars[vi].1.len() { if (deep && (fi + vi + ti) % 3 == 0) || (fi + vi * 3 + ti) % 5 == 0 || fi + 12 >= formulas.len() { w.push((fi, vi, ti)); } } } } w };
+    let work: Vec<(usize, usize, usize)> = { let mut w = Vec::new(); for fi in 0..formulas.len() { for vi in 0..vars.len() { for ti in 0..vars[vi].1.len() { if (deep && (fi + vi + ti) % 3 == 0) || (fi + vi * 3 + ti) % 5 == 0 || fi >= hand_written_from { w.push((fi, vi, ti)); } } } } w };
     let results: Vec<Option<Failure>> = crate::par_map(&work, |(fi, vi, ti)| {
         let (src, f) = &formulas[*fi];
         let (var, terms) = &vars[*vi];
